@@ -51,7 +51,7 @@ Section CellProofs.
   Lemma exec_cell_current p : forall cell (l : locals), fst (exec_cell cell l p) = current cell p.
   Proof.
     induction p as [|a p IH]; intros cell l; [reflexivity|].
-    cbn [TableSwap.exec_cell TableSwap.current]. destruct a as [[t|]|r|r q c]; cbn [TableSwap.cell_step set_table]; apply IH.
+    cbn [TableSwap.exec_cell TableSwap.current]. destruct a as [[t|]|r|r q c|r k]; cbn [TableSwap.cell_step set_table]; apply IH.
   Qed.
 
   Lemma exec_cell_no_load r p : forall cell (l : locals), no_load r p = true ->
@@ -59,10 +59,11 @@ Section CellProofs.
   Proof.
     unfold TableSwap.no_load. induction p as [|a p IH]; intros cell l H; [reflexivity|].
     cbn [existsb] in H. apply negb_true_iff, orb_false_iff in H. destruct H as [Ha Hp].
-    cbn [TableSwap.exec_cell]. destruct a as [o|r'|r' q c]; cbn [TableSwap.cell_step].
+    cbn [TableSwap.exec_cell]. destruct a as [o|r'|r' q c|r' k]; cbn [TableSwap.cell_step].
     - apply IH. now rewrite Hp.
     - rewrite IH by now rewrite Hp. unfold set_local. cbn [is_load_of] in Ha.
       rewrite Nat.eqb_sym in Ha. now rewrite Ha.
+    - apply IH. now rewrite Hp.
     - apply IH. now rewrite Hp.
   Qed.
 
@@ -70,7 +71,7 @@ Section CellProofs.
   Proof.
     unfold TableSwap.count_lookups.
     induction p as [|a p IH]; intros cell l; [reflexivity|].
-    cbn [TableSwap.run_cell filter]. destruct a as [o|r|r q c]; cbn [TableSwap.cell_step is_lookup]; cbn [length]; now rewrite IH.
+    cbn [TableSwap.run_cell filter]. destruct a as [o|r|r q c|r k]; cbn [TableSwap.cell_step is_lookup]; cbn [length]; now rewrite IH.
   Qed.
 
   (* the local table of reader r after  p1 ; Load r ; p2  (no further load of r in p2) *)
@@ -120,7 +121,7 @@ Section CellProofs.
     induction p as [|a p IH]; [now left|].
     destruct IH as [Hn|(p1 & p2 & -> & Hn)].
     - destruct (is_load_of T Q C r a) eqn:Ea.
-      + right. destruct a as [o|r'|r' q c]; try discriminate. cbn [is_load_of] in Ea.
+      + right. destruct a as [o|r'|r' q c|r' k]; try discriminate. cbn [is_load_of] in Ea.
         apply Nat.eqb_eq in Ea. subst r'. exists [], p. now split.
       + left. unfold TableSwap.no_load in *. cbn [existsb]. now rewrite Ea.
     - right. exists (a :: p1), p2. now split.
@@ -130,8 +131,9 @@ Section CellProofs.
   Theorem current_installed t0 p : installed t0 p (current t0 p).
   Proof.
     unfold TableSwap.installed. revert t0. induction p as [|a p IH]; intros t0; [now left|].
-    cbn [TableSwap.current]. destruct a as [[t|]|r|r q c].
+    cbn [TableSwap.current]. destruct a as [[t|]|r|r q c|r k].
     - destruct (IH t) as [H|H]; right; [left; now rewrite H | now right].
+    - destruct (IH t0) as [H|H]; [now left | right; now right].
     - destruct (IH t0) as [H|H]; [now left | right; now right].
     - destruct (IH t0) as [H|H]; [now left | right; now right].
     - destruct (IH t0) as [H|H]; [now left | right; now right].
@@ -141,7 +143,30 @@ Section CellProofs.
   Theorem nil_store_invisible t0 p s : current t0 (p ++ ASet None :: s) = current t0 (p ++ s).
   Proof.
     revert t0. induction p as [|a p IH]; intros t0; [reflexivity|].
-    cbn [app TableSwap.current]. destruct a as [[t|]|r|r q c]; apply IH.
+    cbn [app TableSwap.current]. destruct a as [[t|]|r|r q c|r k]; apply IH.
+  Qed.
+
+  (** readers_do_not_change_table: the other users of route.GetTable() (admin API, Table.String /
+      Dump, logRoutes, the gRPC pool's scan, ...) only read.  Put any number of them anywhere in any
+      schedule: every lookup result, the table in the cell and every reader's snapshot are what they
+      are in the schedule without them. *)
+  Theorem readers_do_not_change_table s : forall cell (l : locals),
+    run_cell cell l s = run_cell cell l (without_reads T Q C s)
+    /\ exec_cell cell l s = exec_cell cell l (without_reads T Q C s).
+  Proof.
+    unfold TableSwap.without_reads.
+    induction s as [|a s IH]; intros cell l; [now split|].
+    destruct a as [o|r|r q c|r k]; cbn [filter is_read negb TableSwap.run_cell TableSwap.exec_cell TableSwap.cell_step].
+    - apply IH.
+    - apply IH.
+    - destruct (IH cell l) as [H1 H2]. now rewrite H1, H2.
+    - apply IH.
+  Qed.
+  Theorem readers_do_not_change_current t0 s : current t0 s = current t0 (without_reads T Q C s).
+  Proof.
+    unfold TableSwap.without_reads. revert t0.
+    induction s as [|a s IH]; intros t0; [reflexivity|].
+    destruct a as [[t|]|r|r q c|r k]; cbn [filter is_read negb TableSwap.current]; apply IH.
   Qed.
 End CellProofs.
 
@@ -149,8 +174,8 @@ End CellProofs.
 Example cell_nonvacuous :
   let look := fun (t : N) (q : N) (_ : unit) => (t * 10 + q)%N in
   run_cell N N unit N look 1%N (no_locals N)
-    [ALoad 0; ASet (Some 2%N); ALookup 0 5%N tt; ALoad 1; ASet None; ASet (Some 3%N); ALookup 1 6%N tt;
-     ALookup 0 7%N tt; ALoad 0; ALookup 0 8%N tt]
+    [ALoad 0; ASet (Some 2%N); ARead 7 0%N; ALookup 0 5%N tt; ALoad 1; ASet None; ASet (Some 3%N); ALookup 1 6%N tt;
+     ARead 0 3%N; ALookup 0 7%N tt; ALoad 0; ALookup 0 8%N tt]
   = [(0, 5%N, tt, Some 15%N); (1, 6%N, tt, Some 26%N); (0, 7%N, tt, Some 17%N); (0, 8%N, tt, Some 38%N)].
 Proof. vm_compute. reflexivity. Qed.
 
@@ -881,3 +906,8 @@ Theorem custom_carry_over_refuted :
       | None => False
       end).
 Proof. vm_compute. repeat split; reflexivity. Qed.
+
+(* F-C02-10 (open): a poll whose body is the JSON value null crashes the polling goroutine
+   (NewTableCustom(nil)), whatever the table; any other decodable body cannot (custom_build_total) *)
+Theorem custom_null_body_crashes cbuild cell : custom_poll_body cbuild cell None = None.
+Proof. reflexivity. Qed.
